@@ -497,4 +497,13 @@ example : LayoutEq pyDef ['a',' ','=','1'] ['a','=','1'] := by
     (LayoutStep.blank ['a'] [] ['=','1'] [' '] _ [(94, ['=']), (48, ['1'])] (by simp) (by decide) (Or.inl rfl) (by simp) rfl pre rfl)))
     (LayoutEq.refl _)
 
+/-- **`Token.SourceMap.make` has no memory.** It is modelled by `mkMap`, a function of `(source, begin, end)` alone — there is
+    no state argument, so the result cannot depend on what was lexed before (stated here for any history of earlier calls).
+    The tie to the code: the translator scans token.py on every run and refuses it (broken tie) when `Token.SourceMap` or the
+    module keeps mutable state (containers at module/class level, `global`, caching decorators, a method reading a module
+    variable); the search `span law under a history` checks the real function on sources that are created and dropped one
+    by one in one process. -/
+theorem source_map_pure (src : Str) (b e : Nat) (history : List (Str × Nat × Nat)) :
+    (history.map (fun h => mkMap h.1 h.2.1 h.2.2), mkMap src b e).2 = mkMap src b e := rfl
+
 end Tranp.C13
